@@ -137,6 +137,7 @@ func (w *World) verifyFunction(fn *ssa.Function, ct *Contract, props []string) (
 		}
 		o := c.obligeNamed(nm, "post", w.Fset.Position(fn.Pos()), "postcondition: "+en.Text, exitGuard, g)
 		o.ModelVars = mvars
+		o.Clause = en
 	}
 	// frame: a contract that declares "pure" or "modifies nothing" must leave every pre-existing object unchanged
 	if ct.HasMod && len(ct.Modifies) == 0 {
@@ -160,6 +161,8 @@ func (w *World) verifyFunction(fn *ssa.Function, ct *Contract, props []string) (
 		}
 	}
 	for _, o := range c.obls {
+		o.Fn = fn
+		o.Ct = ct
 		if o.ModelVars == nil {
 			o.ModelVars = mvars
 		}
